@@ -87,12 +87,13 @@ const (
 	fmGF
 	fmRootF
 	fmRootFG
+	fmGRootF // a non-root field before a root. one: the root span's value is only the fallback
 	fmNumDesc
 	nForms
 	fmNone = -1
 )
 
-var formYAML = [nForms]string{"Field: f", "Fields: [f, g]", "Fields: [g, f]", "Field: root.f", "Fields: [root.f, g]", `Field: "?.NUM_DESCENDANTS"`}
+var formYAML = [nForms]string{"Field: f", "Fields: [f, g]", "Fields: [g, f]", "Field: root.f", "Fields: [root.f, g]", "Fields: [g, root.f]", `Field: "?.NUM_DESCENDANTS"`}
 
 var operators = []string{"=", "!=", "<", "<=", ">", ">=", "starts-with", "contains", "does-not-contain", "exists", "not-exists", "matches", "in", "not-in", "has-root-span"}
 var datatypes = []string{"", "string", "int", "float", "bool"}
@@ -595,6 +596,7 @@ func newTrace(f, g []valID, root int, id string) *traceD {
 		t.res[fmGF] = append(t.res[fmGF], resolved{first(g[i], f[i]), false})
 		t.res[fmRootF] = append(t.res[fmRootF], resolved{rootF, skipped})
 		t.res[fmRootFG] = append(t.res[fmRootFG], resolved{first(rootF, g[i]), skipped})
+		t.res[fmGRootF] = append(t.res[fmGRootF], resolved{first(g[i], rootF), skipped && g[i] == vAbsent})
 		t.res[fmNumDesc] = append(t.res[fmNumDesc], resolved{vI1 + valID(n-1), false}) // int64(n): the trace's number of spans
 	}
 	for fm := 0; fm < nForms; fm++ {
@@ -1340,6 +1342,7 @@ func reprConds() []cond {
 		{fmFG, "=", "", v(csa)}, {fmGF, "contains", "", v(csa)}, {fmGF, "=", "int", v(c1)}, {fmFG, "not-exists", "", v(c1)},
 		{fmRootF, "=", "int", v(c1)}, {fmRootF, "exists", "", v(c1)}, {fmRootF, "not-exists", "", v(c1)}, {fmRootF, "!=", "", v(csa)},
 		{fmRootFG, "=", "string", v(csa)}, {fmRootFG, "exists", "", v(c1)},
+		{fmGRootF, "=", "", v(csa)}, {fmGRootF, "=", "int", v(c1)}, {fmGRootF, "not-exists", "", v(c1)},
 		{fmNumDesc, "=", "int", v(cs1)}, {fmNumDesc, ">", "", v(c1)}, {fmNumDesc, "<=", "int", v(c15)},
 		{fmNone, "has-root-span", "", v(ctrue)}, {fmNone, "has-root-span", "", v(cfalse)},
 	}
